@@ -103,6 +103,70 @@ def rewrites():
     return R
 
 
+def _has_top_level_comma(text):
+    depth, in_str = 0, False
+    for k, ch in enumerate(text):
+        if ch == '"' and (k == 0 or text[k - 1] != "\\"):
+            in_str = not in_str
+        elif not in_str:
+            if ch in "([<":
+                depth += 1
+            elif ch in ")]>":
+                depth -= 1
+            elif ch == "," and depth == 0:
+                return True
+    return False
+
+
+def trailing_comma_variants(item):
+    """Every spelling obtained by adding a trailing comma to ONE non-empty `name( ... )` list inside an attribute
+    (at any nesting level: `#[into(owned(i64,), ref(i32))]`).  Lists not introduced by a name (tuple types) are left
+    alone, because `(T)` and `(T,)` are different types."""
+    out = []
+    depth_attr = 0          # inside #[ ... ]
+    stack = []              # (index of '(', eligible?)
+    i, n = 0, len(item)
+    while i < n:
+        c = item[i]
+        if c == '"':
+            i += 1
+            while i < n and item[i] != '"':
+                i += 2 if item[i] == "\\" else 1
+        elif c == "#" and item[i + 1:i + 2] == "[":
+            depth_attr += 1
+            stack.append((i + 1, False))
+            i += 1
+        elif c in "([":
+            prev = item[i - 1] if i else " "
+            stack.append((i, depth_attr > 0 and c == "(" and (prev.isalnum() or prev == "_")))
+        elif c in ")]":
+            start, eligible = stack.pop()
+            if c == "]" and item[start] == "[" and item[start - 1:start] == "#":
+                depth_attr -= 1
+            if eligible:
+                inner = item[start + 1:i].strip()
+                # one-element lists only when the element is a plain type / expression: a lone keyword (`skip,`), string literal,
+                # `name(...)` group or `name = value` followed by a comma is not a spelling the documentation suggests anywhere
+                lone_special = re.fullmatch(r'(skip|ignore|forward|repr|owned|ref|ref_mut|source|backtrace)|"[^"]*"|\w+\s*\(.*\)|\w+\s*=.*', inner, re.S) and not _has_top_level_comma(inner)
+                if inner and not inner.endswith(",") and not lone_special:
+                    out.append(item[:i] + "," + item[i:])
+        i += 1
+    return out
+
+
+def all_spellings():
+    """rewrites() plus, systematically, a trailing comma in every `name(...)` list of every documented spelling."""
+    R = rewrites()
+    for gi, (d, desc, forms) in enumerate(R):
+        extra = []
+        for f in forms:
+            for v in trailing_comma_variants(f):
+                if v not in forms and v not in extra:
+                    extra.append(v)
+        R[gi] = (d, desc, list(forms) + extra)
+    return R
+
+
 def corruptions():
     """(derive, class, item, needs_rustc)  - every one must be rejected"""
     C = []
@@ -323,7 +387,7 @@ def part3(chk, thorough):
 def run(chk, tier):
     thorough = tier == "thorough"
     # ---------------- Part 1: synonymous rewrites
-    R = rewrites()
+    R = all_spellings()
     reqs, owner = [], []
     for gi, (d, desc, forms) in enumerate(R):
         for f in forms:
